@@ -26,7 +26,10 @@ PROP_ID = 'C10'
 TECHNIQUE = ('runtime post-condition monitors with an exact-integer reference of the definition (two-sided at knife edges, '
              'strict where the arithmetic is exact) + offline relations over the recorded results')
 RULE = ('a case = (record, dt, 3-5 fraction pairs incl. a nested pair and sometimes start=0 / end=1 exactly, threshold specs, '
-        'custom measures, scale exponent, number of prepended zeros, optional object history with later rounds). Records: '
+        'custom measures (monotone: cumsum|a|, CAV, cumsum(a^2)*dt; NON-monotone: signed cumsum(a), cumsum(a|a|), a measure '
+        'overshooting its final value, a measure dipping below the start fraction after entering the band - integer-valued '
+        'and exact on integer records), scale exponent, number of prepended zeros, optional object history with later '
+        'rounds). Records: '
         'shared generator classes (noise, walk, sine, quake, impulse, step, const, zero-padded, integer-valued ...) with n in '
         '[1, 3000] plus a few records past 2**16 per run, records built for exact ties (constant +-c of length 16m / 16m+1, '
         '{-1,0,1} records with a multiple of 16 non-zero samples, small integers), lengths 1..4 and 2**k-1, 2**k, 2**k+1, '
@@ -60,6 +63,8 @@ ASSUMPTIONS = ['NaN/inf-free real records (numpy arrays of any real dtype, lists
                'the record dtype); exact ties are decided strictly when every operation is exact',
                'failures of the history operations themselves (filters on too short records, np.trapz in generate_*_stats, '
                'in-place corrections on read-only data) are observations, not C10 verdicts',
+               'custom measures need not be monotone: the definition is applied literally to the measure\'s own output; a '
+               'non-positive final value leaves no sample strictly inside (outside the statement)',
                'oracle vf/oracles/durations.py is correct']
 EXHAUSTIVE = {'quick': 'all sequences over {-2,-1,0,1,2} of length 1..5 x fractions {(1/4,3/4),(1/8,1/2),(1/2,15/16)} x '
                        'thresholds {0,1,2} (array-level, Arias with dt=0.5, custom cumsum|x|, bracketed)',
@@ -69,6 +74,7 @@ _MIN_QUICK = {   # ~50 % of what a normal quick run reaches (minimum over seeds 
     'sigvals.start/end==definition': 19000, 'sigvals.duration==definition': 20000,
     'sigdur.arias.start/end==definition': 22000, 'sigdur.arias.duration==definition': 15000,
     'sigdur.custom.start/end==definition': 14500, 'sigdur.custom.duration==definition': 11000,
+    'sigdur.custom-nonmonotone.start/end==definition': 7000, 'sigdur.custom-nonmonotone.duration==definition': 7000,
     'alias.significant_duration.duration==definition': 10000,
     'sig.0<=start<=end<=T': 110000, 'sig.lower-tie-excluded(exact)': 5000, 'sig.upper-tie-excluded(exact)': 7500,
     'sig.boundary-fraction(start=0|end=1)': 2000,
@@ -409,7 +415,8 @@ def _sig_context(args, kwargs, pre):
     if imf is None:
         measure, im_vals, mname, name = 'arias', None, None, 'sigdur.arias'
     else:
-        measure, mname, name = 'custom', _measure_name(imf), 'sigdur.custom'
+        measure, mname = 'custom', _measure_name(imf)
+        name = 'sigdur.custom-nonmonotone' if mname in NON_MONOTONE else 'sigdur.custom'
         im_vals = pre['im_vals']
     call = {'fn': 'calc_sig_dur', 'values': arr, 'dt': dt, 'start': s, 'end': e, 'se': se, 'im': mname}
     return asig, name, call, arr, dt, s, e, se, measure, im_vals
@@ -523,6 +530,27 @@ def _onex_brac_factory(fn, name, with_se):
     return onex
 
 
+def _m_overshoot(a):
+    m = np.cumsum(np.abs(np.asarray(a.values, dtype=float)))
+    n = len(m)
+    i, j = int(0.3 * n), int(0.45 * n)
+    out = m.copy()
+    out[i:min(j, n - 1)] += m[-1]
+    return out
+
+
+def _m_dip(a):
+    m = np.cumsum(np.abs(np.asarray(a.values, dtype=float)))
+    n = len(m)
+    i, j = int(0.55 * n), min(int(0.75 * n), n - 1)
+    out = m.copy()
+    out[i:j] = np.floor(m[i:j] / 4.0)
+    return out
+
+
+NON_MONOTONE = ['signed', 'signed_sq', 'overshoot', 'dip']
+
+
 def install(ctx):
     """Attach the C10 monitors to the imported eqsig (idempotent per process)."""
     global CTX
@@ -533,6 +561,11 @@ def install(ctx):
         MEASURES['cumabs'] = lambda a: np.cumsum(np.abs(a.values))
         MEASURES['cav'] = getattr(im.calc_cav, '__vf_orig__', im.calc_cav)
         MEASURES['isq_dt'] = lambda a: np.cumsum(np.asarray(a.values, dtype=float) ** 2) * a.dt
+        # NON-monotone user measures: the definition (first / last sample strictly inside the band) applies literally
+        MEASURES['signed'] = lambda a: np.cumsum(np.asarray(a.values, dtype=float))                  # signed build-up
+        MEASURES['signed_sq'] = lambda a: np.cumsum(np.asarray(a.values, dtype=float) * np.abs(a.values))
+        MEASURES['overshoot'] = _m_overshoot      # transient excursion above the final value
+        MEASURES['dip'] = _m_dip                  # falls below the start fraction again after entering the band
     if getattr(im.calc_sig_dur_vals, '__vf_c10__', False):
         return
     attach.wrap(im, 'calc_sig_dur_vals', _post_vals, pre=_pre_vals, on_exception=_onex_vals).__vf_c10__ = True
@@ -910,7 +943,7 @@ def _object_block(eqsig, ctx, case, asig, dt, fracs, measures, full, compare_fre
     if not full:
         calls = []
         for (s, e) in fracs[:2]:
-            for mname in [None] + measures[:1]:
+            for mname in [None] + measures[:1] + measures[-1:]:
                 imf = MEASURES[mname] if mname else None
                 for se in (True, False):
                     calls.append(('calc_sig_dur(im=%s,start=%r,end=%r,se=%s)' % (mname, s, e, se),
@@ -1252,7 +1285,7 @@ def gen_case(rng, idx):
             x = x * 2.0 ** int(rng.integers(-6, 7))
         dt = float(rng.choice(POW2_DT)) if rng.random() < 0.7 else gen.dt(rng)
         case['fracs'] = gen_fracs(rng, True)
-        case['measures'] = ['cumabs'] + (['cav'] if rng.random() < 0.3 else [])
+        case['measures'] = ['cumabs', NON_MONOTONE[int(rng.integers(4))]] + (['cav'] if rng.random() < 0.3 else [])
     else:
         if kind == 'edge':
             n = int(N_EDGE[int(rng.integers(len(N_EDGE)))])
@@ -1263,7 +1296,7 @@ def gen_case(rng, idx):
         x, cls = gen.record(rng, n)
         dt = gen.dt(rng) if rng.random() < 0.85 else float(rng.choice(POW2_DT))
         case['fracs'] = gen_fracs(rng, cls in ('plateau', 'intnoise', 'const', 'alt', 'step', 'impulse'))
-        case['measures'] = [['cumabs'], ['cav'], ['isq_dt'], ['cumabs', 'cav']][int(rng.integers(4))]
+        case['measures'] = [['cumabs'], ['cav'], ['isq_dt'], ['cumabs', 'cav']][int(rng.integers(4))] + [NON_MONOTONE[int(rng.integers(4))]]
     case['cls'] = cls
     case['k_scale'] = int(rng.choice([-20, -3, -1, 1, 2, 10, 40]))
     case['factor'] = float(rng.choice([3.7, 1e-3, 0.3, 981.0])) if rng.random() < 0.5 else None
@@ -1385,7 +1418,7 @@ def run_exhaustive(eqsig, ctx):
             n_nt += nontriv
             dtype = [np.int64, float, float, np.int8][idx % 4]
             case = {'kind': 'exhaustive', 'cls': 'exhaustive', 'values': np.array(seq, dtype=dtype),
-                    'dt': 0.5, 'fracs': EXH_FRACS, 'measures': ['cumabs'], 'k_scale': 0, 'factor': None, 'k_pad': 0,
+                    'dt': 0.5, 'fracs': EXH_FRACS, 'measures': ['cumabs', ['signed', 'overshoot', 'dip'][idx % 3]], 'k_scale': 0, 'factor': None, 'k_pad': 0,
                     'thr_specs': [['abs', 0.0], ['abs', 1.0], ['abs', 2.0]], 'container': 'array', 'form': idx % 4,
                     'layout': [None, None, 'readonly', 'stride', 'reversed'][idx % 5], 'dt_form': 'float', 'repeat': idx % 7 == 0}
             run_case(eqsig, ctx, case)
